@@ -70,6 +70,9 @@ package uu
 //@   ensures source: forall(i, 0 <= i && i < len(src), src[i] == old(src[i]))
 //@   ensures prefix: imp(err == nil, len(res) >= len(dst) && forall(q, 0 <= q && q < len(dst), res[q] == old(dst[q])))
 //@   ensures frame_only_spare_capacity_of_dst_and_fresh_memory_written: writesOnlySpare(dst)
+//@   ghost cur int = 0 - 1
+//@   on call bytes.Split(ss, sep) (r): assert(ss == src && len(sep) == 1 && sep[0] == '\n', "lines_are_counted_in_the_callers_input_split_at_newlines")
+//@   ensures error_locates_the_line_being_decoded: imp(err != nil, unboxAs(err, DecodeError).Line == cur && cur >= 0)
 //@   ensures failure_returns_no_buffer: imp(err != nil, len(res) == 0)
 //@   ensures round_trip: imp(H, err == nil && len(res) == len(dst) + len(x) && forall(q, len(dst) <= q && q < len(dst) + len(x), res[q] == old(x[q - len(dst)])))
 //@   on assign dec(v): if len(v) == 3 { assert(32 <= chunk[0] && chunk[0] <= 95 && 32 <= chunk[1] && chunk[1] <= 95 && 32 <= chunk[2] && chunk[2] <= 95 && 32 <= chunk[3] && chunk[3] <= 95, "only_alphabet_characters_are_decoded"); assert(sext(v[0], v[1], v[2], 0) == chunk[0] - 32 && sext(v[0], v[1], v[2], 1) == chunk[1] - 32 && sext(v[0], v[1], v[2], 2) == chunk[2] - 32 && sext(v[0], v[1], v[2], 3) == chunk[3] - 32, "decoded_bytes_reencode_to_the_four_characters"); assert(chunk[0] - 32 == dsext(old(line[1+4*c])) && chunk[1] - 32 == dsext(old(line[2+4*c])) && chunk[2] - 32 == dsext(old(line[3+4*c])) && chunk[3] - 32 == dsext(old(line[4+4*c])), "group_values_are_the_characters_sextets"); assert(v[0] == old(dbyte(line, 3*c)) && v[1] == old(dbyte(line, 3*c+1)) && v[2] == old(dbyte(line, 3*c+2)), "group_decodes_to_the_lines_specified_bytes"); assert(imp(H && 45*lineN < len(x), old(line[1+4*c]) == old(encByte(x, 62*lineN + 1 + 4*c)) && old(line[2+4*c]) == old(encByte(x, 62*lineN + 2 + 4*c)) && old(line[3+4*c]) == old(encByte(x, 62*lineN + 3 + 4*c)) && old(line[4+4*c]) == old(encByte(x, 62*lineN + 4 + 4*c))), "rt_group_characters_encode_the_blocks_bytes"); assert(imp(H && 45*lineN < len(x), c <= 14 && 1 + 4*c + 3 < 1 + 4*((fill(len(x), lineN)+2)/3) && 3*c < fill(len(x), lineN)), "rt_group_lies_within_the_line"); assert(imp(H && 45*lineN < len(x), old(encByte(x, 62*lineN + 1 + 4*c)) == uuchar(sext(old(xat(x, 45*lineN + 3*c, 45*lineN + fill(len(x), lineN))), old(xat(x, 45*lineN + 3*c + 1, 45*lineN + fill(len(x), lineN))), old(xat(x, 45*lineN + 3*c + 2, 45*lineN + fill(len(x), lineN))), 0))), "rt_char0_is_sextet0"); assert(imp(H && 45*lineN < len(x), old(encByte(x, 62*lineN + 1 + 4*c + 1)) == uuchar(sext(old(xat(x, 45*lineN + 3*c, 45*lineN + fill(len(x), lineN))), old(xat(x, 45*lineN + 3*c + 1, 45*lineN + fill(len(x), lineN))), old(xat(x, 45*lineN + 3*c + 2, 45*lineN + fill(len(x), lineN))), 1))), "rt_char1_is_sextet1"); assert(imp(H && 45*lineN < len(x), old(encByte(x, 62*lineN + 1 + 4*c + 2)) == uuchar(sext(old(xat(x, 45*lineN + 3*c, 45*lineN + fill(len(x), lineN))), old(xat(x, 45*lineN + 3*c + 1, 45*lineN + fill(len(x), lineN))), old(xat(x, 45*lineN + 3*c + 2, 45*lineN + fill(len(x), lineN))), 2))), "rt_char2_is_sextet2"); assert(imp(H && 45*lineN < len(x), old(encByte(x, 62*lineN + 1 + 4*c + 3)) == uuchar(sext(old(xat(x, 45*lineN + 3*c, 45*lineN + fill(len(x), lineN))), old(xat(x, 45*lineN + 3*c + 1, 45*lineN + fill(len(x), lineN))), old(xat(x, 45*lineN + 3*c + 2, 45*lineN + fill(len(x), lineN))), 3))), "rt_char3_is_sextet3"); assert(imp(H && 45*lineN < len(x), v[0] == old(xat(x, 45*lineN + 3*c, 45*lineN + fill(len(x), lineN))) && v[1] == old(xat(x, 45*lineN + 3*c + 1, 45*lineN + fill(len(x), lineN))) && v[2] == old(xat(x, 45*lineN + 3*c + 2, 45*lineN + fill(len(x), lineN)))), "rt_group_decodes_to_the_blocks_bytes"); assert(imp(H && 45*lineN < len(x) && 3*c < nDec, old(dbyte(line, 3*c)) == old(x[45*lineN + 3*c])), "rt_byte0_of_the_group"); assert(imp(H && 45*lineN < len(x) && 3*c + 1 < nDec, old(dbyte(line, 3*c + 1)) == old(x[45*lineN + 3*c + 1])), "rt_byte1_of_the_group"); assert(imp(H && 45*lineN < len(x) && 3*c + 2 < nDec, old(dbyte(line, 3*c + 2)) == old(x[45*lineN + 3*c + 2])), "rt_byte2_of_the_group"); assert(imp(H && 45*lineN < len(x), forall(i, 3*c <= i && i < 3*c + 3 && i < nDec, (i == 3*c || i == 3*c + 1 || i == 3*c + 2) && old(dbyte(line, i)) == old(x[45*lineN+i]), trig(old(dbyte(line, i))))), "rt_group_data_is_the_blocks_bytes") }
@@ -83,7 +86,7 @@ package uu
 //@   before "if 0b00 != (len(line)-1)&0b11 { return nil, DecodeError{ Line: lineN, Err: ErrInvalidDataLen, } }": assert(imp(H, len(line) == 1 + 4*((fill(len(x), lineN)+2)/3)), "rt_line_length_is_a_length_character_plus_whole_groups")
 //@   before "var nDec int": L0 = len(dst)
 //@   before "encLen := nDec / decChunkLen": assert(imp(H && 45*lineN < len(x), nDec == fill(len(x), lineN)), "rt_line_declares_the_blocks_length"); assert(imp(H && 45*lineN < len(x), forall(j, 1 <= j && j < len(line), old(line[j]) == old(encByte(x, 62*lineN + j)))), "rt_line_characters_are_the_encoding_of_the_block"); assert(imp(H && 45*lineN < len(x), forall(j, 1 <= j && j < len(line), (62*lineN + j)%62 == j && (62*lineN + j)/62 == lineN, trig(old(line[j])))), "rt_line_character_positions"); assert(imp(H && 45*lineN < len(x), forall(j, 1 <= j && j < len(line), 33 <= old(line[j]) && old(line[j]) <= 96)), "rt_line_characters_are_printable")
-//@   before "if 0 == len(line) { continue }": assert(imp(H && lineN + 1 < len(ranged("1")), offsetIn(ranged("1")[lineN+1], src) == offsetIn(line, src) + len(line) + 1), "rt_next_piece_follows_the_newline"); assert(imp(H && 45*lineN >= len(x), len(line) == 0), "rt_no_data_left_means_an_empty_piece"); assert(imp(H && 45*lineN < len(x), len(line) >= 1 + 4*((fill(len(x), lineN)+2)/3)), "rt_data_line_not_shorter_than_its_encoding"); assert(imp(H && 45*lineN < len(x), old(src[62*lineN + 1 + 4*((fill(len(x), lineN)+2)/3)]) == '\n'), "rt_newline_cell_of_the_data_line"); assert(imp(H && 45*lineN < len(x), len(line) <= 1 + 4*((fill(len(x), lineN)+2)/3)), "rt_data_line_not_longer_than_its_encoding")
+//@   before "if 0 == len(line) { continue }": cur = lineN; assert(imp(H && lineN + 1 < len(ranged("1")), offsetIn(ranged("1")[lineN+1], src) == offsetIn(line, src) + len(line) + 1), "rt_next_piece_follows_the_newline"); assert(imp(H && 45*lineN >= len(x), len(line) == 0), "rt_no_data_left_means_an_empty_piece"); assert(imp(H && 45*lineN < len(x), len(line) >= 1 + 4*((fill(len(x), lineN)+2)/3)), "rt_data_line_not_shorter_than_its_encoding"); assert(imp(H && 45*lineN < len(x), old(src[62*lineN + 1 + 4*((fill(len(x), lineN)+2)/3)]) == '\n'), "rt_newline_cell_of_the_data_line"); assert(imp(H && 45*lineN < len(x), len(line) <= 1 + 4*((fill(len(x), lineN)+2)/3)), "rt_data_line_not_longer_than_its_encoding")
 //@   before "loop 1.1.2": assert(len(chunk) == 4 && forall(u, 0 <= u && u < 4, chunk[u] == cond(old(line[1+4*c+u]) == 96, 32, old(line[1+4*c+u]))), "group_is_the_lines_characters_with_backticks_as_spaces"); assert(imp(H && 45*lineN < len(x), forall(u, 0 <= u && u < 4, 32 <= chunk[u] && chunk[u] <= 95)), "rt_group_characters_are_valid")
 //@   after "loop 1.1": assert(len(dst) == L0 + nDec, "line_appends_exactly_its_declared_number_of_bytes"); assert(forall(i, 0 <= i && i < nDec, dst[L0+i] == old(dbyte(line, i)), trig(old(dbyte(line, i)))), "line_appends_the_specified_bytes_in_order"); assert(forall(q, L0 <= q && q < L0 + nDec, dst[q] == oldmem(dbyte(line, q - L0))), "line_appends_the_specified_bytes_by_position"); assert(forall(q, 0 <= q && q < L0, dst[q] == pre("1.1", dst[q])), "line_keeps_everything_decoded_before_it"); assert(imp(H && 45*lineN < len(x), forall(i, 0 <= i && i < nDec, old(dbyte(line, i)) == old(x[45*lineN+i]), trig(old(dbyte(line, i))))), "rt_line_data_is_the_block"); assert(imp(H && 45*lineN < len(x), forall(q, L0 <= q && q < L0 + nDec, dst[q] == oldmem(x[45*lineN + q - L0]))), "rt_line_appends_the_block_of_x")
 //@   loop 1 counter lineN
